@@ -123,6 +123,9 @@ def gen_ann(rng, kinds, names, hooks, deps, depth=0):
     if k == "ph":
         return ["ph", rng.choice(names)]
     if k == "d" and deps:
+        if hooks and rng.random() < 0.25:
+            # value-dependent type whose *bound* is a user class predicate
+            return ["d", rng.choice(hooks) + "t", rng.choice(deps)]
         return ["d", rng.choice(names), rng.choice(deps)]
     if k == "w":
         return ["w"]
@@ -170,16 +173,21 @@ def gen_world(rng, f):
             flavour[p] = "type"
     mixed = rng.random() < f["p_mixed_names"]
     has_kw = rng.random() < f["p_kw"]
+    kw_flavour = "type" if rng.random() < 0.15 else "cls"
     use_prio = rng.random() < f["p_prio"]
 
     def pos_ann(p):
         fl = flavour[p]
         if fl == "int":
             r = rng.random()
-            if r < 0.6:
+            if r < 0.5:
                 vals = sorted(rng.sample(range(4), rng.randint(1, 2)))
                 return ["l", vals]
-            return ["b", "int"] if r < 0.85 else ["o"]
+            if r < 0.65 and dep_names:
+                return ["d", rng.choice(["object", "int", "float"]), rng.choice(dep_names)]
+            if r < 0.85:
+                return ["b", rng.choice(["int", "int", "float", "bool"])]
+            return ["o"]
         if fl == "type":
             r = rng.random()
             if r < 0.7:
@@ -203,8 +211,11 @@ def gen_world(rng, f):
         if ar >= 2 and rng.random() < f["p_optional"]:
             params[-1][3] = True
         if has_kw and rng.random() < 0.7:
-            params.append(["k0", "kw", ["c", rng.choice(names)] if rng.random() < 0.7 else ["o"],
-                           rng.random() < 0.4])
+            if kw_flavour == "type":
+                kann = ["t", rng.choice(names + ["object"])] if rng.random() < 0.75 else ["o"]
+            else:
+                kann = ["c", rng.choice(names)] if rng.random() < 0.7 else ["o"]
+            params.append(["k0", "kw", kann, rng.random() < 0.4])
         prio = rng.choice([-1, 1, 2]) if (use_prio and rng.random() < 0.4) else 0
         sigkey = (repr([p[2] for p in params]), prio)
         if sigkey in seen and rng.random() >= f["p_dup_sig"]:
@@ -228,7 +239,7 @@ def gen_world(rng, f):
         "protocols": protocols, "markers": markers,
         "methods": methods,
         "meta": {"min_ar": min_ar, "max_ar": max_ar, "flavour": flavour,
-                 "has_kw": has_kw, "mixed": mixed,
+                 "has_kw": has_kw, "mixed": mixed, "kw_flavour": kw_flavour,
                  "self": (rng.choice(["func", "ovld"]) if rng.random() < f["p_self"] else None)},
     }
     return spec
@@ -237,7 +248,7 @@ def gen_world(rng, f):
 def gen_value(rng, spec, fl, depth=0):
     names = [c[0] for c in spec["classes"]]
     if fl == "int":
-        return ["int", rng.randrange(5)]
+        return ["int", rng.choice([0, 1, 2, 3, 4, 0, 1, 2, True, False, 1.0, 2.0, 0.0])]
     if fl == "type":
         return ["T", rng.choice(names + ["object", "int"])]
     kids = []
@@ -259,7 +270,7 @@ def gen_call(rng, spec, odd_shapes=True):
         args.append(gen_value(rng, spec, fl))
     c = {"args": args}
     if meta["has_kw"] and rng.random() < 0.6:
-        c["kw"] = {"k0": gen_value(rng, spec, "cls")}
+        c["kw"] = {"k0": gen_value(rng, spec, meta.get("kw_flavour", "cls"))}
     return c
 
 
